@@ -1,314 +1,233 @@
-import PxProofs.PersistSeg
+import PxProofs.PersistFwd
 /-!
-# C04 helper lemmas, part 5: web server and reverse proxy over requests that never share a segment
+# C04 helper lemmas, part 5: web server and reverse proxy on a stream of requests, any packing
 -/
 namespace Px.Persist
 open Px Px.Parser
 
-theorem wrun_append (cfg : WCfg) (s : WSt) (a b : List Bytes) :
-    wrun cfg s (a ++ b) = wrun cfg (wrun cfg s a) b := by
-  induction a generalizing s with
-  | nil => rfl
-  | cons x xs ih => simp only [List.cons_append, wrun]; exact ih _
+/-- a request as data: byte counter and leftover buffer set aside -/
+def norm (P : Parser) : Parser := { P with totalSize := 0, buffer := none }
+
+theorem norm_withTotal (P : Parser) (n : Nat) (b : Option Bytes) :
+    norm ({ (withTotal P n) with buffer := b }) = norm P := rfl
+
+theorem norm_withTotal' (P : Parser) (n : Nat) : norm (withTotal P n) = norm P := rfl
+
+theorem handed_norm (a : Reqs) (ns : List Nat) (h : ns.length = a.length) :
+    (handed a ns).map norm = a.map (fun r => norm r.2) := by
+  induction a generalizing ns with
+  | nil => cases ns <;> simp [handed]
+  | cons r a ih =>
+    cases ns with
+    | nil => simp at h
+    | cons n ns =>
+      simp only [handed, List.map_cons, List.cons.injEq]
+      exact ⟨rfl, ih ns (by simpa using h)⟩
+
+theorem wst_eta_phase (s : WSt) : ({ s with phase := s.phase } : WSt) = s := by cases s; rfl
+
+/-! ## web server -/
+
+def wstepL (cfg : WCfg) (s : WSt) (P : Parser) : WSt :=
+  { s with out := s.out ++ [cfg.respond (s.route.getD 0) P], calls := s.calls ++ [(s.route.getD 0, P)] }
+
+theorem web_good (cfg : WCfg) (P : Parser) (hk : isKeepAlive P = true) (s : WSt) (n : Nat) :
+    (webHooks cfg).complete s (withTotal P n) = .next (wstepL cfg s (withTotal P n)) none := by
+  have : isKeepAlive (withTotal P n) = true := hk
+  simp only [webHooks, this, Bool.not_true, Bool.false_eq_true, if_false, wstepL]
+
+/-- the loop touches `out` and `calls` only -/
+theorem web_loop_inv (cfg : WCfg) (fuel : Nat) (s : WSt) (pl : Option Parser) (raw : Bytes) :
+    (pipeLoop (webHooks cfg) fuel s pl raw).1.phase = s.phase ∧
+    (pipeLoop (webHooks cfg) fuel s pl raw).1.request = s.request ∧
+    (pipeLoop (webHooks cfg) fuel s pl raw).1.route = s.route := by
+  induction fuel generalizing s pl raw with
+  | zero => simp [pipeLoop]
+  | succ f ih =>
+    unfold pipeLoop
+    by_cases he : raw.isEmpty = true
+    · simp [he]
+    · simp only [he, Bool.false_eq_true, if_false]
+      have hb : (webHooks cfg).bypass s pl raw = none := rfl
+      rw [hb]
+      simp only
+      cases hp : Px.Parser.parse Forward.pcfg (pl.getD (init .request)) raw with
+      | error e => simp
+      | ok p' =>
+        simp only
+        by_cases hc : (p'.state == PState.complete) = true
+        · simp only [hc, if_true]
+          by_cases hk : isKeepAlive ({ p' with buffer := none } : Parser) = true
+          · have : (webHooks cfg).complete s { p' with buffer := none } =
+                .next (wstepL cfg s { p' with buffer := none }) none := by
+              simp only [webHooks, hk, Bool.not_true, Bool.false_eq_true, if_false, wstepL]
+            rw [this]
+            simp only
+            cases p'.buffer with
+            | none => simp [wstepL]
+            | some rest =>
+              simp only
+              have := ih (wstepL cfg s { p' with buffer := none }) none rest
+              simpa [wstepL] using this
+          · have : (webHooks cfg).complete s { p' with buffer := none } =
+                .stop (wstepL cfg s { p' with buffer := none }) (some { p' with buffer := none }) .close := by
+              simp only [webHooks, hk, Bool.not_false, if_true, wstepL]
+            rw [this]
+            simp [wstepL]
+        · simp [hc]
+
+/-- a routed keep-alive connection is the loop, segment by segment -/
+theorem wrun_routed (cfg : WCfg) (segs : List Bytes) (s : WSt) (pl : Option Parser) (s' : WSt) (pl' : Option Parser)
+    (hph : s.phase = .routed) (hk : isKeepAlive s.request = true)
+    (h : loopSegs (webHooks cfg) s pl segs = (s', pl', .ok)) : wrun cfg (s, pl) segs = (s', pl') := by
+  induction segs generalizing s pl with
+  | nil =>
+    simp only [loopSegs, Prod.mk.injEq] at h
+    obtain ⟨rfl, rfl, _⟩ := h
+    rfl
+  | cons x xs ih =>
+    rw [loopSegs] at h
+    obtain ⟨i1, i2, i3⟩ := web_loop_inv cfg (x.length + 1) s pl x
+    rcases hp : pipeLoop (webHooks cfg) (x.length + 1) s pl x with ⟨s1, pl1, e⟩
+    rw [hp] at h i1 i2 i3
+    simp only at i1 i2 i3
+    cases e with
+    | close => simp at h
+    | raised => simp at h
+    | ok =>
+      simp only at h
+      have hw : wseg cfg (s, pl) x = (s1, pl1) := by
+        simp only [wseg, hph, wdata, hk, Bool.not_true, Bool.false_eq_true, if_false, hp, endPhase]
+      rw [wrun, hw]
+      exact ih s1 pl1 (by rw [i1]; exact hph) (by rw [i2]; exact hk) h
+
+theorem foldl_wstep (cfg : WCfg) (k : Nat) (Ps : List Parser) (s : WSt) (hr : s.route = some k) :
+    Ps.foldl (wstepL cfg) s =
+      { s with out := s.out ++ Ps.map (cfg.respond k), calls := s.calls ++ Ps.map (fun P => (k, P)) } := by
+  induction Ps generalizing s with
+  | nil => simp
+  | cons P Ps ih =>
+    rw [List.foldl_cons, ih (wstepL cfg s P) (by simpa [wstepL] using hr)]
+    simp [wstepL, hr, List.append_assoc]
 
 /-- the first request of a web-server connection -/
 def WebFirstOk (cfg : WCfg) (x : Bytes) (P : Parser) (k : Nat) : Prop :=
   oneReq x = some P ∧ isWebRequest P = true ∧ isWebsocketUpgrade P = false ∧
   Px.Url.utf8Valid (webPath P) = true ∧ tryRoute cfg (webPath P) = some k ∧ isKeepAlive P = true
 
-/-- a follow-up request (keep-alive) -/
-def WebLaterOk (x : Bytes) (P : Parser) : Prop := oneReq x = some P ∧ isKeepAlive P = true
+/-- follow-up requests: one request each, HTTP/1.1 keep-alive -/
+def WebLaterAll (tl : Reqs) : Prop := ∀ r ∈ tl, oneReq r.1 = some r.2 ∧ isKeepAlive r.2 = true
 
-/-- the handler's first-request phase over the pieces of one web request -/
-theorem wrun_first (cfg : WCfg) (segs : List Bytes) (p P : Parser) (k : Nat)
-    (hf : Forward.feedUntilComplete Forward.pcfg p segs = .ok (P, [])) (hc : P.state = .complete)
-    (hnc : p.state ≠ .complete) (hw : isWebRequest P = true) (hws : isWebsocketUpgrade P = false)
-    (hu : Px.Url.utf8Valid (webPath P) = true) (hr : tryRoute cfg (webPath P) = some k)
-    (s : WSt) (hph : s.phase = .first) (hrq : s.request = p) :
-    wrun cfg s segs = { s with phase := .routed, request := P, route := some k,
-                               out := s.out ++ [cfg.respond k P], calls := s.calls ++ [(k, P)] } := by
-  induction segs generalizing p s with
+theorem WebLaterAll.good (cfg : WCfg) {tl : Reqs} (h : WebLaterAll tl) :
+    ∀ r ∈ tl, ∀ s n, True →
+      (webHooks cfg).complete s (withTotal r.2 n) = .next (wstepL cfg s (withTotal r.2 n)) none ∧ True :=
+  fun r hr s n _ => ⟨web_good cfg r.2 (h r hr).2 s n, trivial⟩
+
+/-- what the web server has done after the whole stream: the handed-over requests `Ps'` are the
+    one-piece parses (as data), each went to plugin `k` once, in order, and was answered in that order -/
+structure WebDone (cfg : WCfg) (k : Nat) (P₁ : Parser) (tl : Reqs) (S : WSt × Option Parser) : Prop where
+  routed : S.1.phase = .routed
+  idle : S.2 = none
+  ex : ∃ Ps' : List Parser, Ps'.map norm = (P₁ :: tl.map (·.2)).map norm ∧
+    S.1.calls = Ps'.map (fun P => (k, P)) ∧ S.1.out = Ps'.map (cfg.respond k)
+
+/-- **web server, whole stream, any packing** -/
+theorem wrun_stream (cfg : WCfg) (x₁ : Bytes) (P₁ : Parser) (k : Nat) (tl : Reqs)
+    (h1 : WebFirstOk cfg x₁ P₁ k) (hl : WebLaterAll tl)
+    (segs : List Bytes) (hne : ∀ seg ∈ segs, seg ≠ []) (d : Bytes) (p : Parser) (hp : CanonP d p)
+    (u : Bytes) (hx : x₁ = d ++ u) (hu : u ≠ []) (hflat : d ++ segs.flatten = x₁ ++ stream tl) :
+    WebDone cfg k P₁ tl (wrun cfg ({ request := p }, none) segs) := by
+  obtain ⟨ho, hw, hws, hutf, hr, hka⟩ := h1
+  induction segs generalizing d p u with
   | nil =>
-    simp only [Forward.feedUntilComplete, Except.ok.injEq, Prod.mk.injEq] at hf
-    rw [hf.1] at hnc; exact absurd hc hnc
-  | cons x xs ih =>
-    unfold Forward.feedUntilComplete at hf
-    cases hp : parse Forward.pcfg p x with
-    | error e => simp [hp] at hf
-    | ok p' =>
-      simp only [hp] at hf
-      by_cases hpc : p'.state = .complete
-      · simp only [hpc, beq_self_eq_true, if_true, Except.ok.injEq, Prod.mk.injEq] at hf
-        obtain ⟨rfl, rfl⟩ := hf
-        simp only [wrun, wseg, hph, hrq, hp, hpc, bne_self_eq_false, Bool.false_eq_true, if_false, hw, hws,
-          Bool.not_true, Bool.or_self, hu, hr]
-      · have hb : (p'.state == PState.complete) = false := by simpa using hpc
-        simp only [hb, Bool.false_eq_true, if_false] at hf
-        have hne : (p'.state != PState.complete) = true := by simpa using hpc
-        have h1 : wseg cfg s x = { s with request := p' } := by
-          simp only [wseg, hph, hrq, hp, hne, if_true]
-        rw [wrun, h1, ih p' hf hpc { s with request := p' } hph rfl]
-
-/-- the keep-alive pipeline parser over the pieces of one follow-up request -/
-theorem wrun_later (cfg : WCfg) (segs : List Bytes) (p P : Parser) (k : Nat)
-    (hf : Forward.feedUntilComplete Forward.pcfg p segs = .ok (P, [])) (hc : P.state = .complete)
-    (hnc : p.state ≠ .complete) (hka : isKeepAlive P = true)
-    (s : WSt) (hph : s.phase = .routed) (hrt : s.route = some k) (hrk : isKeepAlive s.request = true)
-    (hpipe : s.pipe = some p ∨ (s.pipe = none ∧ p = init .request)) :
-    wrun cfg s segs = { s with pipe := none, out := s.out ++ [cfg.respond k P], calls := s.calls ++ [(k, P)] } := by
-  induction segs generalizing p s with
-  | nil =>
-    simp only [Forward.feedUntilComplete, Except.ok.injEq, Prod.mk.injEq] at hf
-    rw [hf.1] at hnc; exact absurd hc hnc
-  | cons x xs ih =>
-    unfold Forward.feedUntilComplete at hf
-    cases hp : parse Forward.pcfg p x with
-    | error e => simp [hp] at hf
-    | ok p' =>
-      simp only [hp] at hf
-      have hgd : s.pipe.getD (init .request) = p := by
-        rcases hpipe with h | ⟨h, rfl⟩ <;> simp [h]
-      by_cases hpc : p'.state = .complete
-      · simp only [hpc, beq_self_eq_true, if_true, Except.ok.injEq, Prod.mk.injEq] at hf
-        obtain ⟨rfl, rfl⟩ := hf
-        simp only [wrun, wseg, hph, hrt, hrk, Bool.not_true, Bool.false_eq_true, if_false, hgd, hp, hpc,
-          beq_self_eq_true, if_true, hka]
-      · have hb : (p'.state == PState.complete) = false := by simpa using hpc
-        simp only [hb, Bool.false_eq_true, if_false] at hf
-        have h1 : wseg cfg s x = { s with pipe := some p' } := by
-          simp only [wseg, hph, hrt, hrk, Bool.not_true, Bool.false_eq_true, if_false, hgd, hp, hb]
-        rw [wrun, h1, ih p' hf hpc { s with pipe := some p' } hph hrt hrk (.inl rfl)]
-
-theorem wrun_laters (cfg : WCfg) (k : Nat) (xs : List Bytes) (Ps : List Parser) (segss : List (List Bytes))
-    (hl : All₂ WebLaterOk xs Ps) (hc : All₂ Cuts segss xs)
-    (s : WSt) (hph : s.phase = .routed) (hrt : s.route = some k) (hrk : isKeepAlive s.request = true)
-    (hpipe : s.pipe = none) :
-    wrun cfg s segss.flatten = { s with out := s.out ++ Ps.map (cfg.respond k), calls := s.calls ++ Ps.map (k, ·) } := by
-  induction hl generalizing segss s with
-  | nil => cases hc; simp [wrun]
-  | @cons x P xs Ps hx _ ih =>
-    cases hc with
-    | @cons segs _ segss' _ hcx hcs =>
-      have h1 := wrun_later cfg segs (init .request) P k (feed_cuts hx.1 hcx) (oneReq_spec hx.1).2.1
-        init_not_complete hx.2 s hph hrt hrk (.inr ⟨hpipe, rfl⟩)
-      rw [List.flatten_cons, wrun_append, h1,
-        ih segss' hcs { s with pipe := none, out := s.out ++ [cfg.respond k P], calls := s.calls ++ [(k, P)] }
-          hph hrt hrk rfl]
-      simp [List.append_assoc, hpipe]
-
-/-- **web server, segment level** -/
-theorem wrun_requests (cfg : WCfg) (x₁ : Bytes) (P₁ : Parser) (k : Nat) (xs : List Bytes) (Ps : List Parser)
-    (segs₁ : List Bytes) (segss : List (List Bytes))
-    (h1 : WebFirstOk cfg x₁ P₁ k) (hl : All₂ WebLaterOk xs Ps) (hc1 : Cuts segs₁ x₁) (hc : All₂ Cuts segss xs) :
-    wrun cfg {} (segs₁ ++ segss.flatten) =
-      { phase := .routed, request := P₁, route := some k, pipe := none,
-        out := (P₁ :: Ps).map (cfg.respond k), calls := (P₁ :: Ps).map (k, ·) } := by
-  obtain ⟨ho, hw, hws, hu, hr, hka⟩ := h1
-  have f := wrun_first cfg segs₁ (init .request) P₁ k (feed_cuts ho hc1) (oneReq_spec ho).2.1
-    init_not_complete hw hws hu hr {} rfl rfl
-  rw [wrun_append, f, wrun_laters cfg k xs Ps segss hl hc _ rfl rfl hka rfl]
-  simp
-
-
-/-! ## reverse proxy: routes answered by the plugin itself -/
-open Px Px.Parser Px.Reverse
-
-/-- in every plugin the first matching route (if any) is a dynamic route whose `handle_route`
-    returns a literal response -/
-def litOnly (m : Nat → Bool) (t : Table) : Bool :=
-  t.all (fun p => match firstMatch m p with
-    | none => true
-    | some (.dynamic _ (.literal _)) => true
-    | _ => false)
-
-/-- the literal responses of the matching routes, in plugin order -/
-def litResps (m : Nat → Bool) (t : Table) : List Bytes :=
-  t.filterMap (fun p => match firstMatch m p with
-    | some (.dynamic _ (.literal r)) => some r
-    | _ => none)
-
-theorem routeLoop_lit (cfg : Reverse.Cfg) (m : Nat → Bool) (pick : Nat → Nat) (t : Table) (i : Nat) (s : Reverse.St)
-    (needs : Bool) (h : litOnly m t = true) :
-    routeLoop cfg m pick i t s needs =
-      ({ s with client := { s.client with buffer := s.client.buffer ++ litResps m t } }, needs, none) := by
-  induction t generalizing i s with
-  | nil => simp [routeLoop, litResps]
-  | cons p ps ih =>
-    simp only [litOnly, List.all_cons, Bool.and_eq_true] at h
-    have hps : litOnly m ps = true := h.2
-    unfold routeLoop
-    cases hf : firstMatch m p with
-    | none =>
-      simp only []
-      rw [ih _ _ hps]
-      simp [litResps, hf]
-    | some r =>
-      have h1 := h.1
-      rw [hf] at h1
-      cases r with
-      | «static» pat urls => simp at h1
-      | dynamic pat res =>
-        cases res with
-        | url u => simp at h1
-        | raises e => simp at h1
-        | literal resp =>
-          simp only [routeAct]
-          rw [ih _ _ hps]
-          simp [litResps, hf, Conn.queue, List.append_assoc]
-
-theorem handleRequest_lit (cfg : Reverse.Cfg) (m : Nat → Bool) (pick : Nat → Nat) (ok : Bool) (t : Table)
-    (req : Parser) (s : Reverse.St) (hp : req.path.isSome = true) (h : litOnly m t = true) :
-    handleRequest cfg m pick ok t req s =
-      ⟨{ s with client := { s.client with buffer := s.client.buffer ++ litResps m t } }, false, none⟩ := by
-  unfold handleRequest
-  have : req.path.isNone = false := by
-    cases hpp : req.path <;> simp [hpp] at hp ⊢
-  simp only [this, Bool.false_and, Bool.false_eq_true, if_false, routeLoop_lit cfg m pick t 0 s false h]
-
-theorem onRequestComplete_lit (cfg : Reverse.Cfg) (m : Nat → Bool) (pick : Nat → Nat) (ok : Bool) (t : Table)
-    (req : Parser) (s : Reverse.St) (hp : req.path.isSome = true) (hu : Px.Url.utf8Valid (Reverse.webPath req) = true)
-    (hm : anyMatch m t = true) (h : litOnly m t = true) :
-    onRequestComplete cfg m pick ok t req s =
-      ⟨{ s with client := { s.client with buffer := s.client.buffer ++ litResps m t } }, false, none⟩ := by
-  unfold onRequestComplete
-  rw [if_neg (by rw [hu]; simp), if_pos hm]
-  exact handleRequest_lit cfg m pick ok t req s hp h
-
-theorem rrun_append (cfg : RCfg) (s : RSt) (a b : List REv) : rrun cfg s (a ++ b) = rrun cfg (rrun cfg s a) b := by
-  induction a generalizing s with
-  | nil => rfl
-  | cons x xs ih => simp only [List.cons_append, rrun]; exact ih _
-
-/-- first request of a reverse-proxied connection, answered by the plugin(s) -/
-def RevFirstOk (cfg : RCfg) (x : Bytes) (P : Parser) : Prop :=
-  oneReq x = some P ∧ isWebRequest P = true ∧ isWebsocketUpgrade P = false ∧ P.path.isSome = true ∧
-  Px.Url.utf8Valid (webPath P) = true ∧ anyMatch (cfg.matchPat (webPath P)) cfg.table = true ∧
-  litOnly (cfg.matchPat (webPath P)) cfg.table = true ∧ isKeepAlive P = true
-
-def RevLaterOk (cfg : RCfg) (x : Bytes) (P : Parser) : Prop :=
-  oneReq x = some P ∧ P.path.isSome = true ∧ litOnly (cfg.matchPat (revPath P)) cfg.table = true ∧
-  isKeepAlive P = true
-
-/-- what the plugin(s) answer to a parsed request -/
-def revAnswer (cfg : RCfg) (first : Bool) (P : Parser) : List Bytes :=
-  litResps (cfg.matchPat (if first then webPath P else revPath P)) cfg.table
-
-theorem rrun_first (cfg : RCfg) (segs : List Bytes) (p P : Parser)
-    (hf : Forward.feedUntilComplete Forward.pcfg p segs = .ok (P, [])) (hc : P.state = .complete)
-    (hnc : p.state ≠ .complete) (hw : isWebRequest P = true) (hws : isWebsocketUpgrade P = false)
-    (hpa : P.path.isSome = true) (hu : Px.Url.utf8Valid (webPath P) = true)
-    (hm : anyMatch (cfg.matchPat (webPath P)) cfg.table = true)
-    (hl : litOnly (cfg.matchPat (webPath P)) cfg.table = true)
-    (s : RSt) (hph : s.phase = .first) (hrq : s.request = p) :
-    rrun cfg s (segs.map .cseg) =
-      { s with phase := .routed, request := P, handled := s.handled + 1,
-               rv := { s.rv with client := { s.rv.client with buffer := s.rv.client.buffer ++ revAnswer cfg true P } } } := by
-  induction segs generalizing p s with
-  | nil =>
-    simp only [Forward.feedUntilComplete, Except.ok.injEq, Prod.mk.injEq] at hf
-    rw [hf.1] at hnc; exact absurd hc hnc
-  | cons x xs ih =>
-    unfold Forward.feedUntilComplete at hf
-    cases hp : parse Forward.pcfg p x with
-    | error e => simp [hp] at hf
-    | ok p' =>
-      simp only [hp] at hf
-      by_cases hpc : p'.state = .complete
-      · simp only [hpc, beq_self_eq_true, if_true, Except.ok.injEq, Prod.mk.injEq] at hf
-        obtain ⟨rfl, rfl⟩ := hf
-        have hr : rfirst cfg { s with request := p' } p' =
-            { s with phase := .routed, request := p', handled := s.handled + 1,
-                     rv := { s.rv with client := { s.rv.client with buffer := s.rv.client.buffer ++ revAnswer cfg true p' } } } := by
-          unfold rfirst
-          have hinv : (!(cfg.table.any (fun pl => !pl.isEmpty) && !Px.Url.utf8Valid (webPath p')) &&
-              anyMatch (cfg.matchPat (webPath p')) cfg.table) = true := by rw [hu, hm]; simp
-          simp only [hinv, if_true, onRequestComplete_lit cfg.rv _ _ true cfg.table p' s.rv hpa hu hm hl, afterHandle,
-            Nat.sub_self, List.replicate_zero, List.append_nil, hph]
-          simp [revAnswer]
-        have hstep : rstep cfg s (.cseg x) = rfirst cfg { s with request := p' } p' := by
-          simp only [rstep, hph, hrq, hp, hpc, bne_self_eq_false, Bool.false_eq_true, if_false, hw, hws,
-            Bool.not_true, Bool.or_self]
-          simp
-        rw [List.map_cons, List.map_nil, rrun, rrun, hstep, hr]
-      · have hb : (p'.state == PState.complete) = false := by simpa using hpc
-        simp only [hb, Bool.false_eq_true, if_false] at hf
-        have hne : (p'.state != PState.complete) = true := by simpa using hpc
-        have h1 : rstep cfg s (.cseg x) = { s with request := p' } := by
-          simp only [rstep, hph, hrq, hp, hne, if_true]
-          simp
-        rw [List.map_cons, rrun, h1, ih p' hf hpc { s with request := p' } hph rfl]
-
-theorem rrun_later (cfg : RCfg) (segs : List Bytes) (p P : Parser)
-    (hf : Forward.feedUntilComplete Forward.pcfg p segs = .ok (P, [])) (hc : P.state = .complete)
-    (hnc : p.state ≠ .complete) (hpa : P.path.isSome = true)
-    (hl : litOnly (cfg.matchPat (revPath P)) cfg.table = true) (hka : isKeepAlive P = true)
-    (s : RSt) (hph : s.phase = .routed) (hrk : isKeepAlive s.request = true)
-    (hpipe : s.pipe = some p ∨ (s.pipe = none ∧ p = init .request)) :
-    rrun cfg s (segs.map .cseg) =
-      { s with pipe := none, handled := s.handled + 1,
-               rv := { s.rv with client := { s.rv.client with buffer := s.rv.client.buffer ++ revAnswer cfg false P } } } := by
-  induction segs generalizing p s with
-  | nil =>
-    simp only [Forward.feedUntilComplete, Except.ok.injEq, Prod.mk.injEq] at hf
-    rw [hf.1] at hnc; exact absurd hc hnc
-  | cons x xs ih =>
-    unfold Forward.feedUntilComplete at hf
-    cases hp : parse Forward.pcfg p x with
-    | error e => simp [hp] at hf
-    | ok p' =>
-      simp only [hp] at hf
-      have hgd : s.pipe.getD (init .request) = p := by
-        rcases hpipe with h | ⟨h, rfl⟩ <;> simp [h]
-      by_cases hpc : p'.state = .complete
-      · simp only [hpc, beq_self_eq_true, if_true, Except.ok.injEq, Prod.mk.injEq] at hf
-        obtain ⟨rfl, rfl⟩ := hf
-        have hstep : rstep cfg s (.cseg x) =
-            { s with pipe := none, handled := s.handled + 1,
-                     rv := { s.rv with client := { s.rv.client with buffer := s.rv.client.buffer ++ revAnswer cfg false p' } } } := by
-          simp only [rstep, hph, hrk, Bool.not_true, Bool.false_eq_true, if_false, hgd, hp, hpc, beq_self_eq_true,
-            if_true, handleRequest_lit cfg.rv _ _ true cfg.table p' s.rv hpa hl, afterHandle, Nat.sub_self,
-            List.replicate_zero, List.append_nil, hka]
-          simp [revAnswer]
-        rw [List.map_cons, List.map_nil, rrun, rrun, hstep]
-      · have hb : (p'.state == PState.complete) = false := by simpa using hpc
-        simp only [hb, Bool.false_eq_true, if_false] at hf
-        have h1 : rstep cfg s (.cseg x) = { s with pipe := some p' } := by
-          simp only [rstep, hph, hrk, Bool.not_true, Bool.false_eq_true, if_false, hgd, hp, hb]
-          simp
-        rw [List.map_cons, rrun, h1, ih p' hf hpc { s with pipe := some p' } hph hrk (.inl rfl)]
-
-theorem rrun_laters (cfg : RCfg) (xs : List Bytes) (Ps : List Parser) (segss : List (List Bytes))
-    (hl : All₂ (RevLaterOk cfg) xs Ps) (hc : All₂ Cuts segss xs)
-    (s : RSt) (hph : s.phase = .routed) (hrk : isKeepAlive s.request = true) (hpipe : s.pipe = none) :
-    rrun cfg s (segss.flatten.map .cseg) =
-      { s with handled := s.handled + Ps.length,
-               rv := { s.rv with client := { s.rv.client with
-                 buffer := s.rv.client.buffer ++ (Ps.map (revAnswer cfg false)).flatten } } } := by
-  induction hl generalizing segss s with
-  | nil => cases hc; simp [rrun]
-  | @cons x P xs Ps hx _ ih =>
-    cases hc with
-    | @cons segs _ segss' _ hcx hcs =>
-      obtain ⟨ho, hpa, hlit, hka⟩ := hx
-      have h1 := rrun_later cfg segs (init .request) P (feed_cuts ho hcx) (oneReq_spec ho).2.1
-        init_not_complete hpa hlit hka s hph hrk (.inr ⟨hpipe, rfl⟩)
-      rw [List.flatten_cons, List.map_append, rrun_append, h1, ih segss' hcs]
-      · simp [List.append_assoc, hpipe, Nat.add_assoc, Nat.add_comm 1]
-      · exact hph
-      · exact hrk
-      · rfl
-
-/-- **reverse proxy, segment level**: every request is answered by the plugin(s) themselves -/
-theorem rrun_requests (cfg : RCfg) (x₁ : Bytes) (P₁ : Parser) (xs : List Bytes) (Ps : List Parser)
-    (segs₁ : List Bytes) (segss : List (List Bytes))
-    (h1 : RevFirstOk cfg x₁ P₁) (hl : All₂ (RevLaterOk cfg) xs Ps) (hc1 : Cuts segs₁ x₁) (hc : All₂ Cuts segss xs) :
-    rrun cfg {} ((segs₁ ++ segss.flatten).map .cseg) =
-      { phase := .routed, request := P₁, pipe := none, handled := 1 + Ps.length,
-        rv := { client := { buffer := revAnswer cfg true P₁ ++ (Ps.map (revAnswer cfg false)).flatten } } } := by
-  obtain ⟨ho, hw, hws, hpa, hu, hm, hlit, hka⟩ := h1
-  have f := rrun_first cfg segs₁ (init .request) P₁ (feed_cuts ho hc1) (oneReq_spec ho).2.1
-    init_not_complete hw hws hpa hu hm hlit {} rfl rfl
-  rw [List.map_append, rrun_append, f, rrun_laters cfg xs Ps segss hl hc _ rfl hka rfl]
-  simp [List.append_assoc]
+    exfalso
+    simp only [List.flatten_nil, List.append_nil] at hflat
+    have := congrArg List.length hflat
+    rw [hx] at this
+    simp only [List.length_append] at this
+    have : 0 < u.length := List.length_pos_iff.mpr hu
+    omega
+  | cons seg segs ih =>
+    have hseg : seg ≠ [] := hne seg (by simp)
+    have hst : seg ++ segs.flatten = u ++ stream tl := by
+      have : d ++ (seg ++ segs.flatten) = d ++ (u ++ stream tl) := by
+        simp only [List.flatten_cons] at hflat
+        rw [hflat, hx, List.append_assoc]
+      exact List.append_cancel_left this
+    have hcase : (∃ a', a' ≠ [] ∧ u = seg ++ a' ∧ segs.flatten = a' ++ stream tl) ∨
+        (∃ c, seg = u ++ c ∧ stream tl = c ++ segs.flatten) := by
+      rcases List.append_eq_append_iff.1 hst with ⟨a', e1, e2⟩ | ⟨c, e1, e2⟩
+      · by_cases ha : a' = []
+        · subst ha
+          exact .inr ⟨[], by simpa using e1.symm, by simpa using e2.symm⟩
+        · exact .inl ⟨a', ha, e1, e2⟩
+      · exact .inr ⟨c, e1, e2⟩
+    have hne' : ∀ x ∈ segs, x ≠ [] := fun x hx' => hne x (by simp [hx'])
+    rcases hcase with ⟨a', ha', hu', hrest⟩ | ⟨c, hsegc, htl⟩
+    · obtain ⟨p', hp', hc'⟩ := feed_within ho hp (by rw [hx, hu', List.append_assoc]) ha' hseg
+      have hnc : (p'.state != PState.complete) = true := by simpa using hc'.incomplete
+      have hw1 : wseg cfg ({ request := p }, none) seg = ({ request := p' }, none) := by
+        simp only [wseg, hp', hnc, if_true]
+      rw [wrun, hw1]
+      exact ih hne' (d ++ seg) p' hc' a' (by rw [hx, hu', List.append_assoc]) ha'
+        (by rw [List.append_assoc, hrest, hx, hu']; simp [List.append_assoc])
+    · obtain ⟨n, p', hp', hpst, hpbuf, hclr⟩ :=
+        feed_complete ho hp (show d ++ seg = x₁ ++ c by rw [hsegc, hx, List.append_assoc])
+      have hnc : (p'.state != PState.complete) = false := by simp [hpst]
+      have heta := parser_eta_buffer p'
+      rw [hclr] at heta
+      have cw : isWebRequest p' = true := by rw [heta]; exact hw
+      have cws : isWebsocketUpgrade p' = false := by rw [heta]; exact hws
+      have cutf : Px.Url.utf8Valid (webPath p') = true := by rw [heta]; exact hutf
+      have cr : tryRoute cfg (webPath p') = some k := by rw [heta]; exact hr
+      have hnorm : norm p' = norm P₁ := by rw [heta]; rfl
+      -- state after the first request has been answered
+      let s1 : WSt := { phase := .routed, request := withTotal P₁ n, route := some k,
+                        out := [cfg.respond k p'], calls := [(k, p')] }
+      by_cases hc : c = []
+      · subst hc
+        have hb : p'.buffer = none := by simpa using hpbuf
+        have hp'eq : p' = withTotal P₁ n := by
+          rw [← hclr]; cases p'; simp_all
+        have hw1 : wseg cfg ({ request := p }, none) seg = (s1, none) := by
+          simp only [wseg, hp', hnc, Bool.false_eq_true, if_false, cw, cws, Bool.not_true, Bool.or_self, cutf, cr, hb]
+          simp [s1, hp'eq]
+        obtain ⟨ns, hns, hloop⟩ := loopSegs_all (webHooks cfg) (wstepL cfg) (fun _ => True) (fun _ _ _ _ => rfl) segs
+          hne' tl (fun r hr' => (hl r hr').1) (hl.good cfg) [] none ⟨.inl ⟨rfl, rfl⟩, fun _ => rfl⟩ (.inl rfl)
+          (by simpa using htl.symm) s1 trivial
+        rw [wrun, hw1, wrun_routed cfg segs s1 none _ none rfl hka hloop, foldl_wstep cfg k _ s1 rfl]
+        refine ⟨rfl, rfl, p' :: handed tl ns, ?_, by simp [s1], by simp [s1]⟩
+        simp only [List.map_cons, hnorm, List.cons.injEq, true_and, List.map_map]
+        rw [handed_norm tl ns hns]; rfl
+      · have hcE : c.isEmpty = false := by simpa using hc
+        have hb : p'.buffer = some c := by simpa [hcE] using hpbuf
+        obtain ⟨done, rs', ns, d', pl', e1, e2, e3, e4, e5, e6, _⟩ :=
+          pipeLoop_stream (webHooks cfg) (wstepL cfg) (fun _ => True) (fun _ _ _ _ => rfl) tl
+            (fun r hr' => (hl r hr').1) (hl.good cfg) [] c segs.flatten none
+            ⟨.inl ⟨rfl, rfl⟩, fun _ => rfl⟩ (.inl rfl) hc (by simpa using htl.symm) (c.length + 1) (by omega) s1 trivial
+        have hl' : WebLaterAll rs' := fun r hr' => hl r (by rw [e1]; simp [hr'])
+        rw [foldl_wstep cfg k _ s1 rfl] at e3
+        have hw1 : wseg cfg ({ request := p }, none) seg =
+            ({ s1 with out := s1.out ++ (handed done ns).map (cfg.respond k),
+                       calls := s1.calls ++ (handed done ns).map (fun P => (k, P)) }, pl') := by
+          simp only [wseg, hp', hnc, Bool.false_eq_true, if_false, cw, cws, Bool.not_true, Bool.or_self, cutf, cr, hb,
+            wdata, hclr]
+          have hk' : isKeepAlive (withTotal P₁ n) = true := hka
+          simp only [hk', Bool.not_true, Bool.false_eq_true, if_false]
+          have : ({ phase := WPhase.routed, request := withTotal P₁ n, route := some k,
+                    out := [] ++ [cfg.respond k p'], calls := [] ++ [(k, p')] } : WSt) = s1 := rfl
+          rw [this, e3]
+          simp [endPhase, s1]
+        obtain ⟨ns2, hns2, hloop⟩ := loopSegs_all (webHooks cfg) (wstepL cfg) (fun _ => True) (fun _ _ _ _ => rfl) segs
+          hne' rs' (fun r hr' => (hl' r hr').1) (hl'.good cfg) d' pl' e4 e5 (by simpa using e6)
+          { s1 with out := s1.out ++ (handed done ns).map (cfg.respond k),
+                    calls := s1.calls ++ (handed done ns).map (fun P => (k, P)) } trivial
+        rw [wrun, hw1, wrun_routed cfg segs _ pl' _ none rfl hka hloop, foldl_wstep cfg k _ _ rfl]
+        refine ⟨rfl, rfl, p' :: (handed done ns ++ handed rs' ns2), ?_, by simp [s1, List.append_assoc],
+          by simp [s1, List.append_assoc]⟩
+        simp only [List.map_cons, hnorm, List.cons.injEq, true_and, List.map_append, List.map_map]
+        rw [handed_norm done ns e2, handed_norm rs' ns2 hns2, e1]
+        simp
+        rfl
 
 end Px.Persist
